@@ -6,3 +6,6 @@ import TsVerif.C03.Props
 #print axioms TsVerif.C03.oracle_sound
 #print axioms TsVerif.C03.select_tree_prefers_dynprec
 #print axioms TsVerif.C03.select_tree_prefers_lower_cost
+#print axioms TsVerif.C03.dyn_sound
+#print axioms TsVerif.C03.pratt_yield
+#print axioms TsVerif.C03.pratt_respects
